@@ -11,7 +11,9 @@ Families (each returns the standard dict; `input` of a failure is replayable thr
   diag     gelman_rubin_statistic against an independently written textbook split R-hat; R-hat and ESS invariance under
            x -> -3x+7, under x -> a x + b on small and large scales (a in 1e-3 .. 1e-6, 1e3, 1e6, -1e-5; b in {0, 0.5}; each also against the
            textbook formula on the transformed chains) and under every permutation of the chains (C <= 4, N in 4..9, odd lengths included).
-Floats: relative tolerance 1e-9 for diagnostics and means; file round trips are exact."""
+  ess      eff_sample_size against an independent O(n^2) implementation of the formula its docstring names (no FFT): a single chain
+           given as a 1-d array and as (1, N), N in {4, 50, 400}, iid and AR(1) 0.5 / 0.9; 2-4 chains.
+Floats: relative tolerance 1e-9 for diagnostics and means (1e-7 for ESS); file round trips are exact."""
 import csv
 import itertools
 import json
@@ -404,6 +406,94 @@ def run_save(tier, seed, stop_first=True):
 
 
 # ---------------------------------------------------------------- diagnostics
+def textbook_ess(x, with_ties=None):
+    """effective sample size, BDA3 11.5 / Stan 2.14 as the code's docstring names it, written with python loops (no numpy, no FFT):
+    x = list of m chains of n draws.  W = mean of the unbiased chain variances, B = n * unbiased variance of the chain means
+    (0 for a single chain), var+ = ((n-1) W + B) / n, lag-t autocovariance of a chain = sum_i d_i d_{i+t} / (n - t),
+    rho_t = 1 - (W - mean over chains of that autocovariance) / var+, summed over t = 1, 2, ... up to the first negative rho_t;
+    ESS = m n / (1 + 2 sum rho_t)"""
+    m, n = len(x), len(x[0])
+    mu = [sum(float(v) for v in ch) / n for ch in x]
+    dev = [[float(v) - mu[c] for v in x[c]] for c in range(m)]
+    s2 = [sum(d * d for d in dev[c]) / (n - 1) for c in range(m)]
+    Wv = sum(s2) / m
+    if m == 1:
+        Bv = 0.0
+    else:
+        g = sum(mu) / m
+        Bv = n * sum((u - g) ** 2 for u in mu) / (m - 1)
+    vp = ((n - 1) * Wv + Bv) / n
+    tot = 0.0
+    # a rho_t within rounding of 0: stopping there is as right as going on (FFT vs direct summation)
+    for t in range(1, n):
+        ac = sum(sum(dev[c][i] * dev[c][i + t] for i in range(n - t)) / (n - t) for c in range(m)) / m
+        rho = 1.0 - (Wv - ac) / vp
+        if abs(rho) < 1e-9 and with_ties is not None:
+            with_ties.append(m * n / (1.0 + 2.0 * tot))      # the value if the sum stops here
+            continue                                          # ... and the main value goes on (rho counted as 0)
+        if not rho >= 0:
+            break
+        tot += rho
+    return m * n / (1.0 + 2.0 * tot)
+
+
+def ess_chains(inp):
+    if inp.get('values') is not None:
+        return np.array(inp['values'], dtype=float)
+    rs = np.random.RandomState(inp['seed'])
+    m, n, phi = inp['C'], inp['N'], inp['phi']
+    e = rs.randn(m, n)
+    x = np.empty((m, n))
+    x[:, 0] = e[:, 0]
+    for t in range(1, n):
+        x[:, t] = phi * x[:, t - 1] + e[:, t]          # AR(1), phi = 0: iid
+    return x + 0.3 * np.arange(m)[:, None]
+
+
+def check_ess(inp):
+    M = _mcmc()
+    x = ess_chains(inp)
+    arg = x[0].copy() if inp.get('one_d') else x.copy()          # a single chain given as a 1-d array or as shape (1, N)
+    with native.time_limit(60):
+        e = float(M.eff_sample_size(arg))
+    ties = []
+    ref = textbook_ess(x.tolist(), ties)
+    if not _close(e, ref, 1e-7) and not any(_close(e, v, 1e-7) for v in ties):
+        return 'eff_sample_size = %.12g, textbook formula (O(n^2) reference) = %.12g [%d chain(s)%s, n = %d, AR(1) %.1f]' % (
+            e, ref, x.shape[0], ' as a 1-d array' if inp.get('one_d') else '', x.shape[1], inp.get('phi', float('nan')))
+    return None
+
+
+def ess_inputs(tier, seed):
+    for N in (4, 50, 400):
+        for phi in (0.0, 0.5, 0.9):
+            for one_d in (True, False):
+                for k in range(1 if tier == 'quick' else 3):
+                    yield dict(fn='ess', C=1, N=N, phi=phi, one_d=one_d, seed=seed * 1000 + N + int(10 * phi) + 17 * k)
+    for C in (2, 3, 4):
+        for N in ((5, 50) if tier == 'quick' else (5, 50, 200)):
+            for phi in (0.0, 0.9):
+                yield dict(fn='ess', C=C, N=N, phi=phi, seed=seed * 1000 + 100 * C + N + int(10 * phi))
+
+
+def run_ess(tier, seed, stop_first=True):
+    cases = nontriv = 0
+    fails = []
+    for inp in ess_inputs(tier, seed):
+        cases += 1
+        nontriv += 1 if inp['phi'] > 0 and inp['N'] >= 50 else 0
+        try:
+            f = check_ess(inp)
+        except Exception as e:
+            f = '%s: %s' % (type(e).__name__, e)
+        if f:
+            fails.append(dict(signature='c16:ess', what=f, input=inp))
+            if stop_first:
+                break
+    return _out('ess-vs-textbook', 'single chain as 1-d and as (1, N), N in {4, 50, 400}, iid / AR(1) 0.5 / 0.9; 2-4 chains, N in {5, 50%s}' % ('' if tier == 'quick' else ', 200'),
+                'non-trivial = autocorrelated chain of at least 50 draws', cases, nontriv, fails)
+
+
 SCALES = (1e-3, 1e-4, 1e-5, 1e-6, 1e3, 1e6, -1e-5)
 
 
@@ -449,6 +539,10 @@ def check_diag(inp):
         if not _close(r2, r, 1e-8):
             return 'R-hat not invariant under x -> -3x+7: %.12g vs %.12g' % (r2, r)
         e = float(M.eff_sample_size(x.copy()))
+        ties = []
+        te = textbook_ess(x.tolist(), ties)
+        if not _close(e, te, 1e-7) and not any(_close(e, v, 1e-7) for v in ties):
+            return 'eff_sample_size = %.12g, textbook formula = %.12g' % (e, te)
         e2 = float(M.eff_sample_size(y))
         if not _close(e2, e, 1e-7):
             return 'ESS not invariant under x -> -3x+7: %.12g vs %.12g' % (e2, e)
@@ -501,7 +595,7 @@ def run_diag(tier, seed, stop_first=True):
                 'non-trivial = at least two chains', cases, nontriv, fails)
 
 
-FAMILIES = dict(sample=run_sample, bolfi=run_bolfi, save=run_save, diag=run_diag)
+FAMILIES = dict(sample=run_sample, bolfi=run_bolfi, save=run_save, diag=run_diag, ess=run_ess)
 
 
 def _preload():
@@ -511,7 +605,7 @@ def _preload():
 
 def run(tier='quick', seed=0, stop_first=True, which=None):
     _preload()
-    return [FAMILIES[k](tier, seed, stop_first) for k in (which or ('sample', 'bolfi', 'save', 'diag'))]
+    return [FAMILIES[k](tier, seed, stop_first) for k in (which or ('sample', 'bolfi', 'save', 'diag', 'ess'))]
 
 
 def replay_input(inp):
@@ -519,7 +613,7 @@ def replay_input(inp):
     fn = inp.get('fn')
     _preload()
     try:
-        f = dict(sample=check_sample, bolfi=check_bolfi, save=check_save, helpers=check_helpers, diag=check_diag)[fn](inp)
+        f = dict(sample=check_sample, bolfi=check_bolfi, save=check_save, helpers=check_helpers, diag=check_diag, ess=check_ess)[fn](inp)
     except Exception as e:
         f = '%s: %s' % (type(e).__name__, e)
     if f:
